@@ -1,7 +1,7 @@
 CONSTANTS
   Dev = {}
   Lens = {0, 1, 30, 31, 32, 33, 2046, 2047, 2048, 2049}
-  MaxFields = 5
+  MaxFields = 4
 INIT InitB
 NEXT NextB
 INVARIANT Reach_BigValueAccepted
